@@ -192,10 +192,20 @@ def simulate(case, with_extractor):
                 # pause position: op[1] in [0, 1000] maps to [acq_pos, n_played]
                 m = acq_pos + (n_played - acq_pos) * op[1] // 1000
                 m = max(m, K0)
+                if len(op) > 3 and op[3] == 'end':
+                    # snap to the end of a generated trial's waveform (if one lies in [acq_pos, n_played]) and let the
+                    # acquisition catch up to it first: its epoch may already be complete when the pause arrives
+                    ends = [t['K'] + len(waves[t['stim']]) for t in trials]
+                    ends = [e for e in ends if max(acq_pos, K0) <= e <= n_played]
+                    if ends:
+                        m = min(ends, key=lambda e: abs(e - m))
+                        if m > acq_pos:
+                            acquire(m - acq_pos)
                 if m > n_played:
                     continue
                 pauses.append((m, len(trials)))
-                q.pause(m / fs)
+                # the pause time need not lie on the sample grid: the device (and the queue) round it to sample m
+                q.pause((m + (op[2] if len(op) > 2 else 0)) / fs)
                 s = stream()[:m]         # the device discards what was not yet played
                 played[:] = [s]
                 n_played = m
@@ -339,7 +349,8 @@ class C06(Spec):
             if rng.random() < 0.7:
                 ops.append(['acq', rng.choice([1, 3, wlen, rng.randint(1, max(2, g))])])
             if step in pause_at:
-                ops.append(['pause', rng.choice([0, 1000, 500, rng.randint(0, 1000), rng.randint(0, 1000)])])
+                ops.append(['pause', rng.choice([0, 1000, 500, rng.randint(0, 1000), rng.randint(0, 1000)]),
+                            rng.choice([0, 0, 0.3, -0.3, 0.45, -0.45]), rng.choice(['', '', 'end'])])
                 if rng.random() < 0.7:
                     ops.append(['gen', rng.randint(1, 30)])
                     if rng.random() < 0.5:
@@ -427,7 +438,12 @@ class C06(Spec):
         for j, l in enumerate(out[1:]):
             if not l.startswith('ok '):
                 return f'extractor call {j} raised/finished: {l}'
-        return self._check(case, sim, by_notification=False)
+        # C06 speaks about trials that were / were not cancelled: that is what the queue's own `removed`
+        # notifications say (whether the queue cancels the right trials is C04's statement, checked there).  A trial
+        # whose nominal duration ends a fraction of a sample after the pause position is cancelled and re-presented
+        # by the queue although all its samples were played; judging it "not cancelled" from the sample grid
+        # would demand more than the property states.
+        return self._check(case, sim, by_notification=True)
 
     def _check(self, case, sim, by_notification):
         """The end-to-end statement.  `cancelled` is decided either on the sample grid (a later pause position
